@@ -434,3 +434,105 @@ Proof.
       * apply (f_equal (@length N)) in Eu. rewrite upd_length in Eu. discriminate.
       * rewrite He in Hm'. discriminate.
 Qed.
+
+(* ---- the fuel of the two loops is sufficient ---- *)
+Definition noof {A} (r : res A) : Prop := r <> Err OutOfFuel.
+
+Lemma noof_bind {A B} (r : res A) (f : A -> res B) :
+  noof r -> (forall a, r = Ok a -> noof (f a)) -> noof (bind r f).
+Proof. unfold noof. destruct r as [a|e]; cbn; intros H1 H2; [now apply H2 | congruence]. Qed.
+
+Lemma noof_idx d i : noof (idx d i).
+Proof. unfold noof, idx. destruct (nth_error d i); discriminate. Qed.
+
+Lemma noof_bcd raw : noof (bcd_decode raw).
+Proof.
+  induction raw as [|b r IH]; [discriminate|]. cbn [bcd_decode].
+  repeat (apply noof_bind; [unfold noof, bcd_char; destruct (nth_error _ _); discriminate | intros ? _]).
+  apply noof_bind; [exact IH | intros; discriminate].
+Qed.
+
+Lemma noof_tls off rest : noof (tls off rest).
+Proof.
+  unfold tls. destruct rest as [|b tl]; [discriminate|].
+  apply noof_bind; [|intros; discriminate].
+  destruct (_ =? 1); [apply noof_bcd|]. destruct (_ =? 2); discriminate.
+Qed.
+
+Lemma noof_parse_fields n : forall off rest, noof (parse_fields n off rest).
+Proof.
+  induction n as [|n IH]; intros off rest; [discriminate|]. cbn [parse_fields].
+  apply noof_bind; [apply noof_tls | intros f _].
+  apply noof_bind; [apply IH | intros [[? ?] ?] _; discriminate].
+Qed.
+
+Lemma noof_custom_fields fuel : forall off rest, (length rest < fuel)%nat -> noof (custom_fields fuel off rest).
+Proof.
+  induction fuel as [|k IH]; intros off rest Hl; [lia|]. cbn [custom_fields].
+  destruct rest as [|b tl]; [discriminate|]. destruct (b =? _); [discriminate|].
+  apply noof_bind; [apply noof_tls | intros f _].
+  apply noof_bind; [|intros; discriminate].
+  apply IH. rewrite skipn_length. cbn [length] in *. lia.
+Qed.
+
+Lemma noof_parse_area dated nf d : noof (parse_area dated nf d).
+Proof.
+  unfold parse_area.
+  apply noof_bind.
+  { unfold common_info. apply noof_bind; [apply noof_idx | intros ? _].
+    destruct (negb _); [discriminate|]. apply noof_bind; [apply noof_idx | intros ? _].
+    destruct (negb _); discriminate. }
+  intros [v len] _. apply noof_bind; [apply noof_idx | intros ? _].
+  apply noof_bind.
+  { destruct dated; [|discriminate].
+    repeat (apply noof_bind; [apply noof_idx | intros ? _]). discriminate. }
+  intros ? _. apply noof_bind; [apply noof_parse_fields | intros [[fs off'] rest] _].
+  apply noof_bind; [|intros; discriminate].
+  unfold decode_custom_fields. apply noof_custom_fields. lia.
+Qed.
+
+Lemma noof_area_at dated nf off img : noof (area_at dated nf off img).
+Proof.
+  unfold area_at, area_obj. destruct (off =? 0); [discriminate|].
+  destruct (skipn _ img); [discriminate|].
+  apply noof_bind; [apply noof_parse_area | intros; discriminate].
+Qed.
+
+Lemma noof_mr_base d : noof (mr_base d).
+Proof.
+  unfold mr_base. destruct d as [|t [|b1 [|l [|c [|h body]]]]]; try discriminate.
+  destruct (negb _); [discriminate|]. destruct (negb _); discriminate.
+Qed.
+
+Lemma noof_parse_record d : noof (parse_record d).
+Proof.
+  unfold parse_record. destruct d as [|t d']; [discriminate|].
+  destruct (t =? 192); [|apply noof_mr_base].
+  destruct (Nat.ltb _ 10); [discriminate|].
+  apply noof_bind; [apply noof_mr_base | intros r _].
+  destruct (_ =? 39); [|discriminate]. destruct (Nat.ltb _ 12); discriminate.
+Qed.
+
+Lemma noof_parse_records fuel : forall d, (length d < fuel)%nat -> noof (parse_records fuel d).
+Proof.
+  induction fuel as [|k IH]; intros d Hl; [lia|]. cbn [parse_records].
+  apply noof_bind; [apply noof_parse_record | intros r Hr].
+  destruct (r_eol r); [discriminate|].
+  apply noof_bind; [|intros; discriminate].
+  apply IH. rewrite skipn_length.
+  destruct (parse_record_base _ _ Hr) as (r0 & Hb & _). apply mr_base_ok in Hb as (H5 & _). lia.
+Qed.
+
+Lemma parse_inventory_fuel img : parse_inventory img <> Err OutOfFuel.
+Proof.
+  unfold parse_inventory. destruct img as [|b0 img']; [discriminate|].
+  apply noof_bind.
+  { unfold parse_header.
+    destruct (firstn 8 (b0 :: img')) as [|d0 [|d1 [|d2 [|d3 [|d4 [|d5 [|d6 [|d7 [|]]]]]]]]]; try discriminate.
+    destruct (negb _); discriminate. }
+  intros h _. repeat (apply noof_bind; [apply noof_area_at | intros ? _]).
+  apply noof_bind; [|intros; discriminate].
+  unfold multi_at, multi_obj. destruct (_ =? 0); [discriminate|].
+  destruct (skipn _ _) eqn:E; [discriminate|].
+  apply noof_bind; [apply noof_parse_records; lia | intros; discriminate].
+Qed.
